@@ -59,7 +59,7 @@ where
           ((o.getD i 0 * dim strides i + kap.getD i 0 * dim dil i : Nat) : Int) - (dim pb i : Int)
         let inside := (List.range ns).all fun i => 0 ≤ pos.getD i 0 ∧ pos.getD i 0 < (dim inDims i : Int)
         let xv := if inside then x.get ([n, c] ++ pos.map Int.toNat) else A.zero
-        A.add acc (A.mul (w.get ([m, c] ++ kap)) xv)) A.zero
+        A.add acc (A.mul xv (w.get ([m, c] ++ kap)))) A.zero
       match bias with
       | some b => A.add acc (b.get [m])
       | none => acc
